@@ -50,8 +50,19 @@ EventRotsInCrystalGroup ==
      /\ Rots(C) \subseteq GroupTable[E.crystal]
      /\ (E.full => Rots(C) = GroupTable[E.crystal])
 
+(* a boundary-length event (bnd.k > 0): the raw numbers the harness evaluated from the real   *)
+(* (strained) lattice are the ones the specification predicts for that case                  *)
+EventBoundaryRaw ==
+  (AtEnd /\ E.bnd.k > 0) =>
+     /\ C.len
+     /\ C.mesh[E.bnd.j] = BoundaryRaw(E.bnd).strained
+     /\ C.mesh[E.bnd.p] = BoundaryRaw(E.bnd).nominal
+     /\ AxisEquiv(Rots(C), E.bnd.j, E.bnd.p)
+
 (* ---- requirement on the logged result *)
 ImplMeshIsRequested == AtEnd => E.mesh = RM
+(* length-specified mesh: equivalent axes carry equal numbers, with mesh symmetry on and off *)
+ImplEquivalentAxesEqual == AtEnd => ReqEquivalentAxesEqual(C, E.mesh)
 ImplGridComplete == AtEnd /\ E.mesh = RM => ReqGridComplete(C, EM, E.res)
 ImplMapWellFormed == AtEnd /\ E.mesh = RM => ReqMapWellFormed(C, EM, E.res)
 Ready == AtEnd /\ E.mesh = RM /\ ReqGridComplete(C, EM, E.res) /\ ReqMapWellFormed(C, EM, E.res)
